@@ -122,6 +122,10 @@ def gen_cases(ctx):
            "quat": [[0.1, 0.2, 0.30000000000000004, 1 / 3]], "corpus": "extremes"}
     yield {"kind": "bag", "stamps": [1500000000.1234567, 1500000001.0000000], "xyz": [[1.0, 2.0, 3.0]] * 2, "quat": [[1.0, 0.0, 0.0, 0.0]] * 2,
            "frame": "map", "corpus": "epoch"}
+    if any(k.get("property") == "C06" and k.get("match", {}).get("stamp_range") == "2^23..2^24" for k in ctx.known):
+        # recorded finding: replayed deterministically (real bag file) once it is listed in known_findings.json
+        yield {"kind": "bag", "stamps": [10606899.173131479], "xyz": [[1.0, 2.0, 3.0]], "quat": [[1.0, 0.0, 0.0, 0.0]], "frame": "map",
+               "corpus": "stamp-in-2^23..2^24"}
     for _ in range(800 if not th else 8000):
         n = r.choice([1, 1, 2, 3, 5, 10, 30])
         fmt = r.choice(["tum", "kitti"])
@@ -179,6 +183,44 @@ def gen_cases(ctx):
         m = len(t["stamps"])
         yield {"kind": "bag", "stamps": t["stamps"], "xyz": t["xyz"][:m], "quat": t["quat"][:m],
                "frame": r.choice(["map", "", "odom", "wörld/位置", "base link"])}
+    # path-reuse histories: save X to p; load p; save Y to p; load p; ... with p spelled in several ways
+    for _ in range(120 if not th else 600):
+        target = r.choice(["res", "res", "res", "tum", "kitti", "euroc", "tf"])
+        nsteps = r.choice([2, 2, 3, 4])
+        steps = []
+        for _i in range(nsteps):
+            n = r.choice([1, 2, 3, 5, 8])
+            if target == "res":
+                trajs = {}
+                if r.random() < 0.7:
+                    trajs["traj_est"] = {"type": "tum", **gen_traj(r, n)}
+                if r.random() < 0.3:
+                    trajs["path"] = {"type": "kitti", "mats": gen_mats(r, n)}
+                payload = {"info": {"title": rand_string(r)}, "stats": {"rmse": hard_double(r), "max": hard_double(r)},
+                           "arrays": {"error_array": [hard_double(r) for _ in range(n)], "timestamps": stamps(r, n)}, "trajs": trajs}
+            elif target == "tum":
+                payload = gen_traj(r, n)
+            elif target == "kitti":
+                payload = {"mats": gen_mats(r, n)}
+            elif target == "euroc":
+                w = 7 + r.choice([0, 9])
+                payload = {"text": "#timestamp,p\n" + "".join(
+                    ",".join([str(r.randint(14 * 10 ** 17, 17 * 10 ** 17))] + [tf.spellings(r, r.uniform(-5, 5)) for _ in range(w)]) + "\n"
+                    for _ in range(n))}
+            else:
+                a = r.uniform(0, 6.28)
+                sc = r.choice([1.0, 2.0, 0.5])
+                payload = {"store": r.choice(["npy", "txt"]),
+                           "mat": [[sc * math.cos(a), -sc * math.sin(a), 0.0, r.uniform(-9, 9)], [sc * math.sin(a), sc * math.cos(a), 0.0, r.uniform(-9, 9)],
+                                   [0.0, 0.0, sc, r.uniform(-9, 9)], [0.0, 0.0, 0.0, 1.0]]}
+            steps.append({"payload": payload, "save_spell": r.choice(["rel", "dot", "dotdot", "abs"]), "load_spell": r.choice(["rel", "dot", "dotdot", "abs"]),
+                          "save_ptype": r.choice(["str", "Path"]), "load_ptype": r.choice(["str", "Path"]),
+                          "flags": [r.random() < 0.6 for _ in range(r.choice([1, 1, 2]))]})
+        if r.random() < 0.5:        # the same spelling throughout (the most common use)
+            sp, pt = r.choice(["rel", "dot", "dotdot", "abs"]), r.choice(["str", "Path"])
+            for st in steps:
+                st.update(save_spell=sp, load_spell=sp, save_ptype=pt, load_ptype=pt)
+        yield {"kind": "history", "target": target, "steps": steps}
     # bag stamp model alone: many stamps, no bag file
     yield {"kind": "bagstamps", "stamps": [abs(hard_double(r)) % 2.0 ** 31 for _ in range(300 if not th else 5000)]
            + [s for _ in range(50) for s in stamps(r, 20)] + [0.0, 0.999999999, 0.9999999999, 1.0 - 2 ** -53, 2 ** 31 - 2 ** -22, 1e-10, 4.9e-324]}
@@ -349,6 +391,97 @@ def impl_bag(c):
     return {"status": "ok", "back": traj_bits(back), "frame": back.meta.get("frame_id"), "hdr": hdr}
 
 
+def result_of(c):
+    from evo.core import result
+    res = result.Result()
+    for k, v in c["info"].items():
+        res.add_info({k: v})
+    res.add_stats(dict(c["stats"]))
+    for k, v in c["arrays"].items():
+        res.add_np_array(k, np.array(v, dtype=float))
+    for k, t in c["trajs"].items():
+        res.add_trajectory(k, mk_traj(t) if t["type"] == "tum" else mk_path(t))
+    return res
+
+
+def result_seen(back):
+    return {"info": back.info, "stats": {k: tf.bits(v) for k, v in back.stats.items()},
+            "arrays": {k: [str(a.dtype), list(a.shape), [tf.bits(v) for v in a.flatten()]] for k, a in back.np_arrays.items()},
+            "trajs": {k: traj_bits(t) for k, t in back.trajectories.items()}}
+
+
+def result_want(c, flag):
+    return {"info": c["info"], "stats": {k: tf.bits(v) for k, v in c["stats"].items()},
+            "arrays": {k: ["float64", [len(v)], [tf.bits(x) for x in v]] for k, v in c["arrays"].items()},
+            "trajs": {k: {kk: vv for kk, vv in want_bits(t).items()} for k, t in c["trajs"].items()} if flag else {}}
+
+
+def strip_lens(d):
+    if isinstance(d, dict):
+        return {k: strip_lens(v) for k, v in d.items() if k != "lens"}
+    return d
+
+
+@guarded
+def impl_history(c):
+    """one scratch directory, one file name, several save/load rounds; what every load returned"""
+    import pathlib
+    from evo.tools import file_interface as fi
+    d = tempfile.mkdtemp(prefix="hist_", dir=tmpdir())
+    os.mkdir(os.path.join(d, "sub"))
+    ext = {"res": "r.zip", "tum": "t.tum", "kitti": "k.kitti", "euroc": "data.csv", "tf": "tf.bin"}[c["target"]]
+    old = os.getcwd()
+    os.chdir(d)
+    seen = []
+    try:
+        def spell(kind, ptype):
+            p = {"rel": ext, "dot": "./" + ext, "dotdot": "sub/../" + ext, "abs": os.path.join(d, ext)}[kind]
+            return pathlib.Path(p) if ptype == "Path" else p
+        for st in c["steps"]:
+            pl = st["payload"]
+            ps, pload = spell(st["save_spell"], st["save_ptype"]), spell(st["load_spell"], st["load_ptype"])
+            if c["target"] == "res":
+                fi.save_res_file(ps, result_of(pl))
+                seen.append([strip_lens(result_seen(fi.load_res_file(pload, load_trajectories=f))) for f in st["flags"]])
+            elif c["target"] == "tum":
+                fi.write_tum_trajectory_file(ps, mk_traj(pl))
+                seen.append([strip_lens(traj_bits(fi.read_tum_trajectory_file(pload)))])
+            elif c["target"] == "kitti":
+                fi.write_kitti_poses_file(ps, mk_path(pl))
+                seen.append([strip_lens(traj_bits(fi.read_kitti_poses_file(pload)))])
+            elif c["target"] == "euroc":
+                with open(ps, "wb") as fh:
+                    fh.write(pl["text"].encode())
+                seen.append([strip_lens(traj_bits(fi.read_euroc_csv_trajectory(pload)))])
+            else:
+                a = np.array(pl["mat"], dtype=float)
+                if pl["store"] == "npy":
+                    with open(ps, "wb") as fh:
+                        np.save(fh, a)
+                else:
+                    np.savetxt(ps, a)
+                seen.append([[[tf.bits(v) for v in row] for row in fi.load_transform(pload)]])
+    finally:
+        os.chdir(old)
+    return {"status": "ok", "seen": seen}
+
+
+def history_want(c):
+    out = []
+    for st in c["steps"]:
+        pl = st["payload"]
+        if c["target"] == "res":
+            out.append([strip_lens(result_want(pl, f)) for f in st["flags"]])
+        elif c["target"] in ("tum", "kitti"):
+            out.append([strip_lens(want_bits(pl))])
+        elif c["target"] == "euroc":
+            ref = tf.ref_read("euroc", pl["text"], True)
+            out.append([{"type": "tum", "rows": [[tf.bits(v) for v in row] for row in ref]}])
+        else:
+            out.append([[[tf.bits(v) for v in row] for row in pl["mat"]]])
+    return out
+
+
 def impl_bagstamps(c):
     """the arithmetic of write_bag_trajectory / read_bag_trajectory on the stamps alone (same float operations)"""
     out = []
@@ -372,6 +505,8 @@ def run_impl(c):
         return impl_bag(c)
     if k == "bagstamps":
         return impl_bagstamps(c)
+    if k == "history":
+        return impl_history(c)
     return {"status": "ok", "out": [tf.bits(n / d) if abs(Fraction(n, d)) < tf.F64_MAX + Fraction(2 ** 970) else "inf" for n, d in c["qs"]]}
 
 
@@ -477,6 +612,11 @@ def judge_text_model(ctx, case, what, fmt, outs, want_rows, text):
     ctx.count("branch", "tokens-checked", len(vals))
 
 
+def stamp_tags(x):
+    """input class of the one recorded deviation from the literal '<= 1 ns' clause (Props/C06 bag_stamp_1ns_counterexample)"""
+    return {"stamp_range": "2^23..2^24"} if 2 ** 23 <= x < 2 ** 24 else {"stamp_range": "other"}
+
+
 def judge(ctx, c, impl, outs):
     k = c["kind"]
     ctx.count("dist", k + ":" + c.get("fmt", c.get("type", "")) + ":" + c.get("variant", "") + c.get("rw", ""))
@@ -496,13 +636,29 @@ def judge(ctx, c, impl, outs):
         judge_df(ctx, c, impl, outs)
     elif k == "bag":
         judge_bag(ctx, c, impl, outs)
+    elif k == "history":
+        want = history_want(c)
+        for i, (w, g, st) in enumerate(zip(want, impl["seen"], c["steps"])):
+            for j, (ww, gg) in enumerate(zip(w, g)):
+                if ww != gg:
+                    what = [kk for kk in ww if ww[kk] != gg.get(kk)] if isinstance(ww, dict) and isinstance(gg, dict) else "values"
+                    ctx.fail(c, "load-returns-current-file-content",
+                             f"{c['target']}: round {i + 1} of {len(want)} (saved as {st['save_spell']}/{st['save_ptype']}, loaded as "
+                             f"{st['load_spell']}/{st['load_ptype']}, load #{j + 1}): the loaded {what} are not what was just saved"
+                             + (" but what an earlier round saved" if i > 0 and any(gg == o for prev in want[:i] for o in prev) else ""),
+                             {"round": i + 1})
+                    break
+        ctx.count("branch", "history:" + c["target"])
+        for st in c["steps"]:
+            ctx.count("dist", "history-spelling:" + st["save_spell"] + ">" + st["load_spell"])
+        ctx.record(c, True)
     elif k == "bagstamps":
         for s, (sec, ns, joined), m in zip(c["stamps"], impl["out"], outs):
             if m.split() != [str(sec), str(ns), rat(tf.from_bits(joined))]:
                 ctx.mismatch(c, f"bag stamp arithmetic for {s!r} differs from Text.bagSplit/bagJoin", [sec, ns, tf.from_bits(joined)], m)
             err = abs(frac(tf.from_bits(joined)) - frac(s))
             if err > Fraction(1, 10 ** 9):
-                ctx.fail(c, "bag-stamp-within-1ns", f"{s!r} -> {tf.from_bits(joined)!r}: {float(err)}")
+                ctx.fail(c, "bag-stamp-within-1ns", f"{s!r} -> {tf.from_bits(joined)!r}: {float(err)}", stamp_tags(s))
             ctx.count("branch", "bag:exact" if err == 0 else "bag:inexact")
         ctx.record(c, True)
     elif k == "rne":
@@ -640,7 +796,7 @@ def judge_bag(ctx, c, impl, outs):
                 break
             t, t2 = frac(tf.from_bits(rw[0])), frac(tf.from_bits(rg[0]))
             if abs(t2 - t) > Fraction(1, 10 ** 9):
-                ctx.fail(c, "bag-stamp-within-1ns", f"pose {i}: {tf.from_bits(rw[0])!r} -> {tf.from_bits(rg[0])!r}")
+                ctx.fail(c, "bag-stamp-within-1ns", f"pose {i}: {tf.from_bits(rw[0])!r} -> {tf.from_bits(rg[0])!r}", stamp_tags(tf.from_bits(rw[0])))
                 break
             mm = m.split()
             if len(mm) != 3 or core.parse_rat(mm[2]) != t2:
@@ -695,6 +851,13 @@ def shrink(case):
                 c = dict(case)
                 c[field] = {a: b for a, b in case[field].items() if a != key}
                 yield c
+    elif k == "history":
+        n = len(case["steps"])
+        if n > 2:
+            for i in range(n):
+                c = dict(case)
+                c["steps"] = case["steps"][:i] + case["steps"][i + 1:]
+                yield c
     elif k in ("bagstamps", "rne"):
         key = "stamps" if k == "bagstamps" else "qs"
         n = len(case[key])
@@ -712,6 +875,9 @@ OPEN = ["zip / npy / pandas / rosbags serialisation are libraries: bit-exact dif
         "bag stamps: proved |x' - x| <= 1 ns + x*2^-53 + 2^-50 and <= 2 ns + 2^-49 for every binary64 stamp in [0, 2^31), and x' = x when "
         "2^(e-1) > 2 ns (all stamps >= 2^25 s); the literal '<= 1 ns' of the property cannot hold for doubles whose spacing exceeds 1 ns "
         "other than as x' = x, which is what the oracle observes",
+        "bag stamps in [2^23, 2^24) s (97..194 days; spacing 1.86 ns): about 7 % come back one ulp = 1.86 ns off, i.e. more than the literal "
+        "1 ns (kernel-checked: bag_stamp_1ns_counterexample; cause: floor instead of rounding in nanosec); failures there carry the tag "
+        "stamp_range=2^23..2^24 for known_findings.json",
         "archive member names: array/trajectory names that are empty or contain '/' are outside the domain (Path(...).stem cuts them): not generated"]
 
 
